@@ -255,10 +255,17 @@ pub fn disasm_event(v: &Vocab, m: &dr::Module, tag: &str) -> Value {
     }
 }
 
-fn load_insts(insts: &[SInst]) -> Option<dr::Module> {
+/// Loads the binary; a panic of the loader / parser is recorded (an event of its own, counted by C04).
+fn load_insts(out: &mut Out, insts: &[SInst]) -> Option<dr::Module> {
     let mut ws: Vec<u32> = HEADER.to_vec();
     for i in insts { ws.extend(i.encode()); }
-    dr::load_words(&ws).ok()
+    match catch(|| dr::load_words(&ws)) {
+        Ok(r) => r.ok(),
+        Err(p) => {
+            out.ev(json!({"ev": "disasm", "tag": "load", "st": "loadpanic", "panic": jpanic(&p), "m": {}, "lines": [], "words": jws(&ws)}));
+            None
+        }
+    }
 }
 
 pub fn drive(args: &[String]) {
@@ -272,7 +279,7 @@ pub fn drive(args: &[String]) {
     // (a) random loadable modules (any mix of opcodes)
     for k in 0..n {
         let (insts, _) = random_loadable(&g, &mut rng, k % 2 == 1, 3);
-        if let Some(m) = load_insts(&insts) { out.ev(disasm_event(&v, &m, "random")); }
+        if let Some(m) = load_insts(&mut out, &insts) { out.ev(disasm_event(&v, &m, "random")); }
     }
     // (b) every opcode once, and every enumerant / mask bit once, inside a loadable skeleton
     let skeleton = |body: Vec<SInst>, rng: &mut Rng| -> Vec<SInst> {
@@ -309,11 +316,11 @@ pub fn drive(args: &[String]) {
             batch.push(i);
             if batch.len() >= 12 {
                 let insts = skeleton(std::mem::take(&mut batch), &mut rng);
-                if let Some(m) = load_insts(&insts) { out.ev(disasm_event(&v, &m, "sweep")); }
+                if let Some(m) = load_insts(&mut out, &insts) { out.ev(disasm_event(&v, &m, "sweep")); }
             }
         }
     }
-    if !batch.is_empty() { let insts = skeleton(std::mem::take(&mut batch), &mut rng); if let Some(m) = load_insts(&insts) { out.ev(disasm_event(&v, &m, "sweep")); } }
+    if !batch.is_empty() { let insts = skeleton(std::mem::take(&mut batch), &mut rng); if let Some(m) = load_insts(&mut out, &insts) { out.ev(disasm_event(&v, &m, "sweep")); } }
     // (c) OpConstant / OpSpecConstant / OpSwitch over every int / float width with boundary bit patterns; undeclared and non-numeric types
     let pats32 = [0xffu32, 0x80, 0xffff, 0x8000, 0x0001_0005, 0xffff_ff80, 0u32, 1, 0x7fff_ffff, 0x8000_0000, 0xffff_ffff, 0x3f80_0000, 0xbf80_0000, 0x0000_3c00, 0x7f80_0000, 0xff80_0000, 0x0000_0001, 0x8000_0000, 42];
     let pats64 = [0u64, 1, 0x7fff_ffff_ffff_ffff, 0x8000_0000_0000_0000, u64::MAX, 0x3ff0_0000_0000_0000, 0xbff0_0000_0000_0000, 0x7ff0_0000_0000_0000, 0xfff0_0000_0000_0000, 1 << 52, 0x4059_0000_0000_0000];
@@ -330,7 +337,7 @@ pub fn drive(args: &[String]) {
     insts.push(SInst { op: 20, rt: None, rid: Some(id), ops: vec![] });
     insts.push(SInst { op: 43, rt: Some(id), rid: Some(id + 1), ops: vec![SOp::one("LiteralBit32", 7)] });
     insts.push(SInst { op: 43, rt: Some(9999), rid: Some(id + 2), ops: vec![SOp::one("LiteralBit32", 0xffff_fff0)] });
-    if let Some(m) = load_insts(&insts) { out.ev(disasm_event(&v, &m, "constants")); }
+    if let Some(m) = load_insts(&mut out, &insts) { out.ev(disasm_event(&v, &m, "constants")); }
     // constants that come BEFORE the declaration of their type (legal for the loader and the Builder)
     let early = vec![
         SInst { op: 43, rt: Some(5), rid: Some(1), ops: vec![SOp::one("LiteralBit32", 0xffff_fffb)] },
@@ -341,7 +348,7 @@ pub fn drive(args: &[String]) {
         SInst { op: 21, rt: None, rid: Some(7), ops: vec![SOp::one("LiteralBit32", 32), SOp::one("LiteralBit32", 0)] },
         SInst { op: 43, rt: Some(5), rid: Some(4), ops: vec![SOp::one("LiteralBit32", 0x8000_0000)] },
     ];
-    if let Some(m) = load_insts(&early) { out.ev(disasm_event(&v, &m, "constants")); }
+    if let Some(m) = load_insts(&mut out, &early) { out.ev(disasm_event(&v, &m, "constants")); }
     // (d) OpExtInst with known / unknown sets and numbers; strings with quotes, backslashes, newlines, non-ASCII
     let mut insts = vec![
         SInst { op: 11, rt: None, rid: Some(1), ops: vec![SOp { k: "LiteralString".into(), w: vec![], s: Some(b"GLSL.std.450".to_vec()) }] },
@@ -362,7 +369,7 @@ pub fn drive(args: &[String]) {
         }
     }
     insts.extend(skeleton(body, &mut rng));
-    if let Some(m) = load_insts(&insts) { out.ev(disasm_event(&v, &m, "extinst-strings")); }
+    if let Some(m) = load_insts(&mut out, &insts) { out.ev(disasm_event(&v, &m, "extinst-strings")); }
     let events = out.finish();
     println!("{}", json!({"events": events}));
 }
